@@ -421,7 +421,11 @@ def generate(rng, tier, n):
             yield _gen_large(rng, tier)
             continue
         r = rng.random()
-        if r < 0.34:
+        if i % 12 == 11:
+            c = _gen_mixed(rng, tier, (3, 4, 6, 6, 2))          # run on Python's own list/set: tests the Spec
+            c["stream"] = "specval"
+            yield c
+        elif r < 0.34:
             yield _gen_mixed(rng, tier, (3, 5, 5, 4, 1))
         elif r < 0.62:
             yield _gen_deletion(rng, tier)
@@ -429,6 +433,131 @@ def generate(rng, tier, n):
             yield _gen_stale(rng, tier)
         else:
             yield _gen_setalg(rng, tier)
+
+
+# ---------------------------------------------------------------------------
+# spec validation: the same histories run on Python's own list / set / dict
+# (builtin slicing, list.pop/remove/index/sort/reverse, set algebra, dict.fromkeys
+# for first-appearance order).  Coq then checks these observations against Spec
+# (and Model): this tests the *reference*, not boltons, and is counted separately.
+# ---------------------------------------------------------------------------
+class ListRef:
+    def __init__(self, other=None):
+        self.l = list(dict.fromkeys(other)) if other is not None else []
+
+    def __iter__(self):
+        return iter(list(self.l))
+
+    def __reversed__(self):
+        return reversed(list(self.l))
+
+    def __len__(self):
+        return len(self.l)
+
+    def __contains__(self, x):
+        return x in set(self.l)
+
+    def add(self, x):
+        if x not in set(self.l):
+            self.l.append(x)
+
+    def remove(self, x):
+        if x not in set(self.l):
+            raise KeyError(x)
+        self.l.remove(x)
+
+    def discard(self, x):
+        if x in set(self.l):
+            self.l.remove(x)
+
+    def pop(self, *a):
+        return self.l.pop(*a)
+
+    def clear(self):
+        self.l.clear()
+
+    def sort(self, **kw):
+        self.l.sort(**kw)
+
+    def reverse(self):
+        self.l.reverse()
+
+    @staticmethod
+    def _sets(others):
+        return [set(o) for o in others]
+
+    def _ordered(self, keep, extra=()):
+        return [x for x in dict.fromkeys(list(self.l) + [y for o in extra for y in o]) if x in keep]
+
+    def union(self, *others):
+        others = [list(o) for o in others]
+        return ListRef(self._ordered(set(self.l).union(*self._sets(others)), others))
+
+    def intersection(self, *others):
+        others = [list(o) for o in others]
+        return ListRef(self._ordered(set(self.l).intersection(*self._sets(others))))
+
+    def difference(self, *others):
+        others = [list(o) for o in others]
+        return ListRef(self._ordered(set(self.l).difference(*self._sets(others))))
+
+    def symmetric_difference(self, other):
+        other = list(other)
+        return ListRef(self._ordered(set(self.l).symmetric_difference(set(other)), [other]))
+
+    __or__ = __ror__ = union
+    __and__ = __rand__ = intersection
+    __sub__ = difference
+    __xor__ = __rxor__ = symmetric_difference
+
+    def __rsub__(self, other):
+        return type(other)(set(other) - set(self.l))
+
+    def update(self, *others):
+        self.l[:] = self.union(*others).l
+
+    def intersection_update(self, *others):
+        self.l[:] = self.intersection(*others).l
+
+    def difference_update(self, *others):
+        self.l[:] = self.difference(*others).l
+
+    def symmetric_difference_update(self, other):
+        self.l[:] = self.symmetric_difference(other).l
+
+    def __ior__(self, o):
+        self.update(o)
+        return self
+
+    def __iand__(self, o):
+        self.intersection_update(o)
+        return self
+
+    def __isub__(self, o):
+        self.difference_update(o)
+        return self
+
+    def __ixor__(self, o):
+        self.symmetric_difference_update(o)
+        return self
+
+    def issubset(self, o):
+        return set(self.l).issubset(set(o))
+
+    def issuperset(self, o):
+        return set(self.l).issuperset(set(o))
+
+    def isdisjoint(self, o):
+        return set(self.l).isdisjoint(set(o))
+
+    def __getitem__(self, i):
+        return ListRef(self.l[i]) if isinstance(i, slice) else self.l[i]
+
+    def index(self, x):
+        return self.l.index(x)
+
+    def count(self, x):
+        return self.l.count(x)
 
 
 # ---------------------------------------------------------------------------
@@ -463,14 +592,17 @@ def _spoil(operand):
             operand.append("spoiled")
         elif isinstance(operand, set):
             operand.add("spoiled")
-        elif hasattr(operand, "item_list"):
+        elif hasattr(operand, "item_list") or isinstance(operand, ListRef):
             operand.add("spoiled")
     except Exception:
         pass
 
 
 def run_impl(case):
-    from boltons.setutils import IndexedSet
+    if case.get("stream") == "specval":
+        IndexedSet = ListRef
+    else:
+        from boltons.setutils import IndexedSet
     T = Toks(case["keymode"])
     for t in range(0, 64):
         T.obj(t)
@@ -815,6 +947,13 @@ def distribution(d, case, obs):
         dep["histories_over_384_intervals"] += 1
     dep["max_item_list"] = max(dep["max_item_list"], stt.get("max_items", 0))
     dep["max_len"] = max([dep["max_len"]] + [ob["len"] for ob in obs["steps"]])
+
+
+def extra_evidence(results):
+    sv = [r for r in results if r["case"].get("stream") == "specval"]
+    return {"spec_validation": {"what": "histories run on Python's own list/set/dict (ListRef in harness/c11.py) instead of "
+                                        "IndexedSet and checked against Spec.C11_Spec by the same Coq verdict",
+                                "cases": len(sv), "failed": sum(1 for r in sv if not (r["agree"] and r["holds"]))}}
 
 
 def sample(case, obs):
